@@ -7,6 +7,8 @@ PROPERTY_RULES = {
     "C03": ["r_a2", "r_a3"],
     "C05": ["r_b1", "r_o3", "r_a2"],
     "C06": ["r_b1", "r_o3"],
+    "C07": ["r_a12"],
+    "C08": ["r_a11", "r_o3"],
     "C09": ["r_c4", "r_c1"],
     "C10": ["r_c2", "r_c1", "r_e1"],
     "C11": ["r_c2", "r_c1", "r_a6", "r_e1"],
@@ -19,6 +21,10 @@ PROPERTY_RULES = {
 LEVEL = {"C14": "proof"}
 
 CLAUSES = {
+    "C07": "no byte-buffer allocation and no byte copy is reachable from any zero-copy operation (vtable dispatch expanded), apart from verified exempt "
+           "edges; clone returns the (ptr, len) it was given",
+    "C08": "is_unique slot functions return constant false exactly for families whose into_mut can never hand the memory over, `count == 1` (true on the "
+           "unshared branch) otherwise; try_into_mut is exactly is_unique ? Ok(into) : Err(self); every take-over re-validates uniqueness with Acquire",
     "C03": "on every CFG path of every vtable/drop/conversion/duplication function the handle's reference is disposed exactly once (minted exactly once "
            "for clone); initial counts match the number of handles; consuming slots are called only on ManuallyDrop'd handles; from_owner boxes before "
            "as_ref, calls it once, unwinds into Drop",
@@ -51,6 +57,8 @@ LEVEL_NOTE = {
     "C14": "trusted: rustc type checking/trait resolution, std slice comparison and hash impls, std views (as_bytes, deref, [..]); views show the contents (C01).",
 }
 TECHNIQUE = {
+    "C07": "effect reachability over the crate call graph with vtable slots expanded to all bound functions; exemptions verified by dominating guards",
+    "C08": "return-value flow of the is_unique slot functions cross-checked against the take-over paths of into_mut (path summaries) + dominating-guard analysis",
     "C03": "path-sensitive linear-token accounting over MIR (acyclic path enumeration with constant folding and tag-feasibility pruning, interprocedural event summaries)",
     "C02": "precondition extraction from debug_assert!s of unsafe helpers + dominating-guard implication at every safe call site; shape rules for raw slices/writes; arithmetic taint",
     "C13": "dominating-guard implication for unsafe-helper preconditions at safe call sites + arithmetic taint analysis",
@@ -63,6 +71,8 @@ TECHNIQUE = {
     "C11": "name-grammar vs encode-signature agreement over MIR callees, taint+guard analysis of overflow asserts",
     "C16": "taint + dominating-guard analysis of every MIR overflow/shift assert (profile-dependent arithmetic)",
 }
+LEVEL_NOTE["C08"] = ("trusted: rustc, std atomics. NOT decided: 'an empty sole owner can always reclaim / reserve does not allocate' — an arithmetic "
+                      "implication over reserve_inner's branch conditions that needs a solver (DESIGN.md §6 C08).")
 NOT_APPLICABLE = {
     "C18": "quantitative heap/allocation-count bound over 10^3..10^6-round histories; no structural clause whose violation implies the bound fails (DESIGN.md §6 C18)",
 }
